@@ -31,7 +31,7 @@ def extract(facts, tname):
     st = SymState()
     wave_in, wave_out, maskp = [p["name"] for p in fn["params"]]
     m = {"fn": fn, "type": tname, "validate": None, "loops": [], "ret": None, "wave_in": wave_in, "wave_out": wave_out}
-    stmts = fn["body"]["stmts"]
+    stmts = ir.inline_self_calls(facts, tname, fn["body"]["stmts"])
 
     def handle_loop(e, stx, cond=None):
         g = mask_guard_of_loop(e)
